@@ -340,7 +340,8 @@ _EXTRA16 = lambda g, nm: {"C16": [
     H(g, "proofs::pw_rng_fail_closed_at1", "qt", timeout=900, mode="lean", replay="native:rng_fail", schema=[], replay_args={"backend": nm, "op": "pw", "at": 1}, doc="%s PBKW: failure of the nonce draw only => Err" % nm),
     H(g, "proofs::pke_rng_fail_closed_", "qt", timeout=1200, mode="lean", replay="native:rng_fail", schema=[], replay_args={"backend": nm, "op": "pke", "at": 0}, doc="%s PKE: failure of the ephemeral-key draw => Err" % nm)]}
 _v4 = l2_backend("v4", "v4", True, {"secret_len": 64, "pke_len": 96, "nonce": 32, "tag": 32, "sig": 64, "pie_over": 64, "pw_over": 88}, keys={"pub_len": 32, "sec_len": 64, "pub_in_secret": True}, extra={
-    "C16": [H("v4", "proofs::local_nonce_is_draw_", "qt", timeout=600, mode="lean", replay="none", doc="v4: the token nonce is exactly the drawn randomness (freshness inherited from the RNG)"),
+    "C16": [H("v4", "proofs::pw_pal_params_reach_kdf", "qt", timeout=600, mode="lean", replay="none", doc="v4 PBKW: witness for the RNG harnesses — with the byte-palindromic cost parameters they use and a healthy RNG, pw_wrap_key reaches the KDF"),
+            H("v4", "proofs::local_nonce_is_draw_", "qt", timeout=600, mode="lean", replay="none", doc="v4: the token nonce is exactly the drawn randomness (freshness inherited from the RNG)"),
             ] + _EXTRA16("v4", "v4")["C16"]})
 
 
@@ -538,6 +539,7 @@ _api = [H("core_units", "api::" + n, t, timeout=to, mem=12, mode="nomem", doc=d)
     ("keyid_sid_44", "t", 1800, "KeyId<Secret>"), ("keyid_pid_44", "t", 1800, "KeyId<Public>"),
     ("key_fromstr_is_keytext_then_decode", "qt", 900, "Key::from_str = KeyText::from_str then V::decode on exactly the decoded bytes (header fixed, 4-char symbolic tail)"),
     ("keyid_roundtrip_eq_ord_hash", "t", 1800, "KeyId: FromStr(Display(id)) == id; Eq/Ord/Hash agree with the 33 bytes"),
+    ("token_concrete_dot_shapes", "qt", 900, "concrete companion: 12 fixed token strings with different dot structures (trailing dots, extra segments, empty payload) are accepted/rejected and re-serialised as specified, real memchr"),
     ("token_p2_nodot", "qt", 900, "SealedToken: 'v4.local.' + every 2-byte tail without '.': accepted iff canonical base64url; Display round trip"),
     ("token_p2_dot_f0", "t", 2400, "SealedToken 2-char payload + trailing '.': Display drops it"),
     ("token_p2_dot_f1", "qt", 900, "SealedToken 2-char payload, '.', one arbitrary byte (a 1-char footer is never valid, a second '.' is rejected)"),
@@ -624,6 +626,17 @@ for _tab in (_v4, _v3, _v2, _va, _vs):
 # paseto-v3-aws-lc: harnesses that run the VERIFY side (Signature::from_bytes -> ECDSA_verify behind the LcPtr wrappers) do not
 # finish symbolic execution (> 900 s, > 13 GB at every setting tried; DESIGN.md 7.6) and are not registered; the sealing side,
 # key parsing, the FFI ledger and all local / PIE / PBKW harnesses are.
+# paseto-v2 / paseto-v4 / paseto-v4-sodium PBKW: the engine reads the two 32-bit big-endian cost fields of the zerocopy `Params` struct
+# byte-swapped on this code path (the 64-bit field is read correctly; reproduced with concrete values, not reproducible in a reduced
+# crate; DESIGN.md 7.2) — default parameters then look invalid and pw_wrap_key "fails" before the KDF.  Harnesses whose verdict depends
+# on the default parameters being accepted are therefore not registered for these backends: they would pass (fail-closed) or fail
+# (round trip) for the wrong reason.  A variant of the RNG harnesses with byte-palindromic cost parameters (kept in the v2/v4 harness
+# crates) still disagreed with native execution on a seeded change (c16b) and is not registered either.  Kept: c04_pw_unwrap_to_kdf (every 32-bit value is explored, so the swap is a bijection; the
+# replay offers both byte orders), c05_pbkw_mem_domain (memory field only, time/parallelism byte-palindromes), length harnesses.
+_ARGON_DROP = ("pw_roundtrip", "pw_default_must", "pw_tamper", "pw_rng_fail_closed", "pw_pal_params")
+for _tab in (_v4, _v2, _vs):
+    for _k in list(_tab.keys()):
+        _tab[_k] = [h for h in _tab[_k] if not any(x in h.name for x in _ARGON_DROP)]
 _AWSLC_DROP = ("public_roundtrip", "public_tamper", "public_aad", "public_unseal_arbitrary_exact", "public_unseal_arbitrary_above", "c08_signing_key_codec_secret",
                "c08_signing_key_codec_rederive", "pke_")
 for _k in list(_va.keys()):
@@ -631,13 +644,16 @@ for _k in list(_va.keys()):
 for _p in ("C01", "C02", "C04", "C05", "C06", "C12", "C16"):
     _have = {(h.group, h.name) for h in PROPS[_p].harnesses}
     PROPS[_p].harnesses += [h for h in _collect(_p) if (h.group, h.name) not in _have]
+for _P in PROPS.values():
+    if getattr(_P, "harnesses", None):
+        _P.harnesses = [h for h in _P.harnesses if not (h.group in ("v4", "v2", "v4sodium") and any(x in h.name for x in _ARGON_DROP))]
 # trim the L1 part of the C04 / C09 quick tiers
 for _h in PROPS["C04"].harnesses + PROPS["C09"].harnesses:
     if _h.group == "core_units" and "q" in _h.tiers:
         n = _h.name
         keep = ("l0_" in n or any(n.endswith(x) for x in ("strict_n0", "strict_n2", "strict_n3", "strict_n4", "strict_n5", "strict_n6", "small_dst", "roundtrip_empty",
                 "roundtrip_n1", "roundtrip_n2", "roundtrip_n3", "roundtrip_n4", "agrees_n2", "agrees_n3", "keytext_local_t0", "keytext_local_t2", "keytext_local_t3",
-                "pie_local_t2", "pw_local_t2", "seal_t2", "token_p2_nodot", "token_p2_dot_f1", "key_fromstr_is_keytext_then_decode", "l3_unseal_exact_p3_f0_a0",
+                "pie_local_t2", "pw_local_t2", "seal_t2", "token_concrete_dot_shapes", "token_p2_nodot", "token_p2_dot_f1", "key_fromstr_is_keytext_then_decode", "l3_unseal_exact_p3_f0_a0",
                 "seal_hdr_t0", "token_hdr_p0_nodot")))
         if not keep:
             _h.tiers = "t"
